@@ -28,7 +28,7 @@ IDS = [None, ("A1", "A1"), ("prod_2x", "prod_2x"), ("ABCDEFGHIJKLMNOP", "ABCDEFG
 
 def bounds(tier):
     return dict(enzymes=["BsaI", "BbsI", "FokI", "BspD6I"] if tier == "quick" else "all enzyme geometries", k=[1, 2, 3], schemes=[0, 1],
-                ids=[list(i) if i else "default" for i in IDS], variants=["plain", "annotated", "rotated", "with-unused-module"] + (["annotated participant at every rotation, each in turn"] if tier == "thorough" else []),
+                ids=[list(i) if i else "default" for i in IDS], variants=["plain", "annotated", "rotated", "with-unused-module", "renamed-after-use (same objects / deep copies renamed after a first assembly)"] + (["annotated participant at every rotation, each in turn"] if tier == "thorough" else []),
                 two_level=["cidar", "ecoflex", "moclo"], two_level_entries=[1, 2, 3], cassette_rotations_before_reuse=[0, 3, "n/2"])
 
 
@@ -37,7 +37,7 @@ ID_STYLES = ["part_%02d", "araC-pBAD-%d", "kanR-cassette-v2-%d", "gb|X%d.1|", "m
 
 def goals(tier):
     return ["default-id", "requested-id", "k=3", "annotated-inputs", "unused-module-in-comment", "two-level-nested-provenance",
-            "genbank-roundtrip", "rotated-inputs", "long-chain-comment", "product-named-like-one-of-its-parts"]
+            "genbank-roundtrip", "rotated-inputs", "long-chain-comment", "product-named-like-one-of-its-parts", "inputs-renamed-after-a-first-use"]
 
 
 def annotate(s, name):
@@ -196,6 +196,24 @@ def run_single(st, scn):
     want = ("assembly", "assembly") if ids is None else tuple(ids)
     inputs = {n: str(recs[n].seq) for n in strings}
     check_product(st, dict(scn, retained_fragments=k + 1), o.record, inputs, want[0], want[1], mnames, vname)
+    if variant == "renamed-after-use":
+        # the very same record objects, renamed (and, for a copy, corrected) after they took part in an assembly, take part in
+        # another one: the product must name what the inputs are called NOW
+        import copy as _copy
+        ren = {}
+        for j, n_ in enumerate(strings):
+            r2 = recs[n_] if j % 2 == 0 else _copy.deepcopy(recs[n_])
+            r2.id = "re-" + n_
+            r2.name = "re%d" % j
+            ren["re-" + n_] = r2
+        rv = "re-" + vname
+        rm_ = [x for x in ren if x != rv]
+        o2 = asm.run_assemble(V(ren[rv]), [M(ren[x]) for x in rm_], **kw)
+        st.goal("inputs-renamed-after-a-first-use")
+        if o2.kind != "product":
+            st.violation("assembly", "assembly-of-renamed-inputs-fails-" + str(o2.exc_name), scn, "product", o2.brief())
+            return None
+        check_product(st, dict(scn, retained_fragments=k + 1, second_call="renamed"), o2.record, {x: str(ren[x].seq) for x in ren}, want[0], want[1], rm_, rv)
     return o
 
 
@@ -216,7 +234,7 @@ def run_unit(unit, st, tier):
     if kind == "single":
         enz, k = arg
         for scheme in (0, 1):
-            for variant in ("plain", "annotated", "rotated", "with-unused-module"):
+            for variant in ("plain", "annotated", "rotated", "with-unused-module", "renamed-after-use"):
                 for ids in IDS:
                     scn = dict(enz=enz, k=k, scheme=scheme, variant=variant, ids=list(ids) if ids else None)
                     o = run_single(st, scn)
